@@ -26,7 +26,8 @@ MANIFEST = {
                   "C19_avcrec_roundtrip_exact: trailing chroma/bit-depth info for every profile except 66/77/88; C19_hvcrec_roundtrip: "
                   "all 17 fields and every NAL unit array); the record put into the sample entry by a successful Set{AVC,HEVC}Descriptor "
                   "is the one derived from the SPS and survives encode -> decode (C19_descriptor_avc_record, C19_descriptor_hevc_record). "
-                  "Whole init in the C01 box model (tree_of: every box the constructors build, with C01's leaf/container constructors; its "
+                  "Whole init in the C01 box model (a frozen copy, coq/c19/C19BoxCodec.v + C19BoxModel.v = C01Codec/C01Model at /verif commit "
+                  "c35b7dd, so that concurrent extensions of C01 cannot turn C19 red) (tree_of: every box the constructors build, with C01's leaf/container constructors; its "
                   "encoding is compared byte for byte with the real InitSegment.Encode): C19_roundtrip is now PROVED there for every "
                   "op sequence and every SPS parser: if the final state's values fit their fields (args_okb) and the sizes fit 32 bits "
                   "(enc_fits), C01's decoder applied to C01's encoding returns a tree EQUAL to the one encoded, the decoded file passes "
@@ -43,7 +44,7 @@ MANIFEST = {
                   "96000 Hz (known finding), one-byte elng tag, AddEmptyTrack on decoded inits (outside the quantifier).",
     "level_note": "Trusted: Coq kernel, extraction (ExtrOcamlBasic), OCaml/Go glue; the SPS parsers are arguments of the model "
                   "(their answers are taken from the real parsers in the correspondence; their correctness is C15's property); "
-                  "the box codec used for the tree is C01's model (imported read-only; its own correspondence is C01's check), boxes "
+                  "the box codec used for the tree is a frozen copy of C01's model (C19BoxModel.v, snapshot of c35b7dd), boxes "
                   "it has no leaf for (hvcC, esds, dac3, dec3, wvtt, stpp) are opaque byte payloads written by C19's models; "
                   "C15Spec/C15HevcSpec serialisers + validity predicates generate the parameter sets (expected values come from "
                   "the generating field values); in-memory chroma/bit-depth values of an avcC with profile 66/77/88 are not part "
@@ -69,7 +70,9 @@ def run(ctx):
         "aac.AudioSpecificConfig.Encode (through the C13 bit-writer model), Dac3Box/Dec3Box.ChannelInfo",
         "model: coq/c19/C19RecModel.v is a hand transcription of avc.DecConfRec / hevc.DecConfRec Size, EncodeSW, Decode...DecConfRec",
         "model: coq/c19/C19TreeModel.v builds the init's box tree with the leaf/container constructors of coq/c01/C01Model.v "
-        "(C01's encoder/decoder are trusted as models of the Go box codec to the extent of C01's own correspondence); "
+        "(coq/c19/C19BoxModel.v is a verbatim snapshot of C01's model at c35b7dd; its encoder is tied to the Go code by C19's byte "
+        "comparison of InitSegment.Encode on every case, its decoder by C01's correspondence at that commit and by the search's "
+        "real-code round trip); "
         "hvcC/esds/dac3/dec3/wvtt/stpp payloads are written by C19's own transcriptions",
         "generator: coq/c15/C15Spec.v (nalu_sps, nalu_pps, sps_valid, pps_valid) and coq/c15/C15HevcSpec.v (hnalu_sps, hnalu_pps, "
         "hsps_valid, hpps_valid) extracted into the C19 driver; the random choice of field values is a copy of ocaml/c15_driver.ml's",
